@@ -459,6 +459,16 @@ func bytesMode(out string, maxFiles int) {
 						fa, sa := w.abstract(p, dict)
 						now, _ := json.Marshal([]any{fa, sa})
 						emit(event{Ev: "obs", C: ncase, Files: fa, Sum: sa, Out: validate(dir), Changed: string(now) != string(pristine), Op: fmt.Sprintf("%s %d in %s", op, pos, t)})
+						// migration files: the inserted byte also ranges over the blank classes a reader might normalise away
+						if op == "insert" && t != "atlas.sum" {
+							for _, c := range []byte{'\r', ' ', '\t', '\n', 0} {
+								nb = append(append(append([]byte{}, orig[:pos]...), c), orig[pos:]...)
+								must(os.WriteFile(tp, nb, 0o644))
+								fa, sa := w.abstract(p, dict)
+								now, _ := json.Marshal([]any{fa, sa})
+								emit(event{Ev: "obs", C: ncase, Files: fa, Sum: sa, Out: validate(dir), Changed: string(now) != string(pristine), Op: fmt.Sprintf("insert %q %d in %s", c, pos, t)})
+							}
+						}
 					}
 				}
 				// compound edits of the sum file: one byte moved a few positions away
